@@ -20,6 +20,7 @@ for d in seeded/*/; do
     echo -e "$name\t$prop\tPATCH-DOES-NOT-APPLY\t-\t-" >> "$tmp"
     git -C /repo worktree remove --force "$WT"; continue
   fi
+  (cd /repo && PYTHONPATH=/repo OMP_NUM_THREADS=2 timeout 600 /venv/bin/python -W ignore "$HERE/$d/demo.py" >/dev/null 2>&1); clean_rc=$?
   (cd "$WT" && PYTHONPATH="$WT" OMP_NUM_THREADS=2 timeout 600 /venv/bin/python -W ignore "$HERE/$d/demo.py" >/dev/null 2>&1); demo_rc=$?
   s=$(date +%s)
   res=$(VERIF_REPO="$WT" timeout 3000 ./vcheck "$prop" --tier "$tier" --no-evidence 2>&1); rc=$?
@@ -29,8 +30,8 @@ for d in seeded/*/; do
   verdict=MISSED
   [ $rc -eq 1 ] && verdict=CAUGHT
   [ $rc -eq 3 ] && verdict=HARNESS-ERROR
-  echo -e "$name\t$prop\t$verdict\tdemo_rc=$demo_rc\t$((e-s))s\t$nviol\t$first" >> "$tmp"
-  echo "$name $prop $verdict (demo rc=$demo_rc, check rc=$rc, $((e-s))s) $first"
+  echo -e "$name\t$prop\t$verdict\tdemo clean=$clean_rc mutated=$demo_rc\t$((e-s))s\t$nviol\t$first" >> "$tmp"
+  echo "$name $prop $verdict (demo clean=$clean_rc mutated=$demo_rc, check rc=$rc, $((e-s))s) $first"
   git -C /repo worktree remove --force "$WT"
 done
 if [ "$filter" = "." ]; then mv "$tmp" "$out"; else
